@@ -336,6 +336,8 @@ class Sym:
 
     _max_visits = 1
     _returns = None
+    _block_hook = None      # optional callable(bb, state) invoked on entry to every block; truthy = record the state, "end" = and stop the path
+    unique_calls = False    # tag every opaque call result with its position among the calls of the path (two reads of one stream are two values)
 
     def run(self, stop):
         """stop(bb, term) -> truthy for the call terminators of interest. Returns [dict(bb, term, args, state)] -- one per path and
@@ -359,6 +361,13 @@ class Sym:
                 blk = fn.blocks[bb]
                 if blk.get("cleanup"):
                     return
+                if self._block_hook is not None:
+                    hv = self._block_hook(bb, st)
+                    if hv:
+                        out.append(dict(bb=bb, term=None, args=[], state=st.fork()))
+                        if hv == "end":
+                            npaths[0] += 1
+                            return
                 for s in blk["stmts"]:
                     if s["k"] == "assign":
                         self.write_place(st, s["place"], self.rvalue(st, s["rv"]))
@@ -375,9 +384,16 @@ class Sym:
                     bb = t["target"]
                     continue
                 if k == "call":
-                    if stop(bb, t):
-                        out.append(dict(bb=bb, term=t, args=[self.operand(st, a) for a in t["args"]], state=st.fork()))
+                    sv = stop(bb, t)
+                    if sv:
+                        av = [self.operand(st, a) for a in t["args"]]
+                        out.append(dict(bb=bb, term=t, args=av, state=st.fork()))
+                        if sv == "end":
+                            npaths[0] += 1
+                            return
                     r = self.call(st, t)
+                    if sv:
+                        st.trace = st.trace + ((bb, t.get("callee") or "", tuple(av), r),)
                     if r == ("diverge",) or t.get("target") is None:
                         npaths[0] += 1
                         return
